@@ -114,6 +114,13 @@ class CMAESDesigner(vza.PartiallySerializableDesigner):
     """
     count = count or 1
     cma_suggestions = np.array(self._cma_es_jax.ask(count))
+    if not np.all(np.isfinite(cma_suggestions)):
+      # E.g. the search distribution has collapsed after many identical trials.
+      # Non-finite features would be decoded as missing parameters.
+      raise ValueError(
+          'CMA-ES produced non-finite points: its state is degenerate and it'
+          ' cannot make further suggestions.'
+      )
 
     # Convert CMA suggestions to suggestions.
     return [
